@@ -26,7 +26,9 @@ RULE = (
     "live: drawn (sentinel style x rows 1..60 x insertmanyvalues_page_size 1..25 given as engine arg / connection, execute or statement "
     "execution option x paramstyle qmark|numeric|named|numeric_dollar x returning()/return_defaults()/no RETURNING x sort_by_parameter_order "
     "x extra default columns x upsert clause x RETURNING permutation of the cursor); grid: rows 0..60 x page 1..25 x 4 sentinel styles "
-    "(quick: reduced); orm: unit-of-work flush and ORM bulk INSERT with heterogeneous key sets; rec: PostgreSQL/MariaDB/MSSQL driver "
+    "(quick: reduced); geom_grid: rows x page size {2,3,5,7,1000} x dialect.insertmanyvalues_max_parameters override {4..60} so that the max-parameters "
+    "batch shrink is active, for sorted client-sentinel and unsorted configurations; live/rec additionally draw page sizes {1,2,3,5,7,1000,100000}, a "
+    "max-parameters override 4..60 and row counts k*batch, k*batch+-1, <batch relative to the shrunk batch; orm: unit-of-work flush and ORM bulk INSERT with heterogeneous key sets; rec: PostgreSQL/MariaDB/MSSQL driver "
     "dialects over a recording DBAPI whose fake server answers each batch in reversed order. Non-trivial: sort requested with >=2 batches, "
     "or a sentinel column in use with a permuted multi-row batch, or heterogeneous key sets; distinct = canonical JSON of the case"
 )
@@ -38,6 +40,8 @@ ASSUMPTIONS = [
     "recording tier: the fake server models INSERT..VALUES / INSERT..SELECT..FROM (VALUES..) ORDER BY sen_counter only; serial keys are assigned in "
     "sen_counter order (PostgreSQL/MSSQL documented guarantee) or VALUES order (MariaDB InnoDB) and the driver returns a bound value unchanged",
     "client-generated sentinel values are unique (documented requirement)",
+    "Dialect.insertmanyvalues_max_parameters (documented dialect attribute; 999 on old SQLite, 2099 on SQL Server) may be any value that still lets one "
+    "parameter set fit: the check sets it on the engine's dialect instance to make the limit active with narrow tables",
     "the server-generated-PK style uses a 128-bit randomblob() default: its value is never part of the oracle (rows are matched through the payload) and collisions are ignored",
 ]
 
@@ -139,6 +143,62 @@ def _stored(conn, t):
     return out
 
 
+def _bind_bounds(style, extras, case):
+    """(upper bound of binds per parameter set, upper bound of binds outside VALUES) - used only to keep a drawn
+    insertmanyvalues_max_parameters override legal (the shrunk batch must hold at least one row)"""
+    per_row = 1 + {"uuid_pk": 1, "str_pk": 1, "int_pk": 1, "sent_col": 1, "sent_uuid": 1, "composite": 2, "given_pk": 1}.get(style, 0)
+    per_row += sum({"val": 1, "pd": 1, "pc": 1, "sq": 3}.get(e, 0) for e in extras)
+    outside = (2 if case.get("ret_expr") else 0) + (1 if case.get("upsert", "none") in ("update_excluded", "update_bound") else 0)
+    return per_row, outside
+
+
+def _geometry(case, style, extras):
+    """resolves the dialect max-parameters override and the row count of a batch-geometry case.
+    returns (max_params or None, n)"""
+    mp = case.get("max_params")
+    n = case.get("n")
+    if not mp and "n_rel" not in case:
+        return None, n
+    per_row, outside = _bind_bounds(style, extras, case)
+    page = case["page"]
+    b = page
+    if mp:
+        mp = max(mp, per_row + outside)
+        b = min(page, max(1, (mp - outside) // per_row))
+    if "n_rel" in case:
+        kind, k = case["n_rel"]
+        if kind == "lt":
+            n = max(1, min(b - 1, 1 + k))
+        else:
+            n = k * b + {"mult": 0, "plus": 1, "minus": -1}[kind]
+        n = max(1, min(n, 90))
+    return mp or None, n
+
+
+def _batch_classes(sizes, n, page, mp):
+    """labels from the observed VALUES-group sizes of the emitted INSERT statements"""
+    out = []
+    if not sizes:
+        return out
+    big = max(sizes)
+    batched = big > 1 or (len(sizes) < n)
+    if mp:
+        out.append("max-parameters-set")
+    if mp and big < min(page, n) and len(sizes) > 1 and (batched or page > 1):
+        out.append("max-parameters-active")
+    if big > 1:
+        out.append("rows-multiple-of-batch" if n % big == 0 else "rows-not-multiple-of-batch")
+        if n % big == 1:
+            out.append("rows=k*batch+1")
+        if n % big == big - 1 and big > 2:
+            out.append("rows=k*batch-1")
+        if n < big or len(sizes) == 1:
+            out.append("rows-within-one-batch")
+    if page >= 1000:
+        out.append("page>=1000")
+    return out
+
+
 def _expect_error(style, ret, sort, n):
     # documented: an autoincrement PK explicitly marked insert_sentinel=True is refused by a dialect that cannot use it
     return style == "explicit_autoinc" and ret != "none" and sort and n > 1
@@ -174,13 +234,18 @@ def _insert_stmt(sa, t, case):
 def check_live(case, ctx):
     import sqlalchemy as sa
 
-    style, n, page, sort, ret = case["style"], case["n"], case["page"], case["sort"], case["ret"]
+    style, page, sort, ret = case["style"], case["page"], case["sort"], case["ret"]
     extras = case.get("extras", [])
     scr = case.get("scramble", "rev")
     via = case["page_via"]
     stats = {}
     ekw = {"insertmanyvalues_page_size": page} if via == "engine" else {}
     eng = du.sqlite_engine(case.get("paramstyle", "qmark"), scr, stats, **ekw)
+    max_params, n = _geometry(case, style, extras)
+    if max_params:
+        # Dialect.insertmanyvalues_max_parameters is a documented dialect attribute (999 on SQLite < 3.32, 2099 on SQL Server); a small value
+        # makes the "max number of parameters" batch shrink active with narrow tables and few rows
+        eng.dialect.insertmanyvalues_max_parameters = max_params
     try:
         m = sa.MetaData()
         t, cnt = _build_table(sa, m, style, extras)
@@ -243,9 +308,16 @@ def check_live(case, ctx):
                 rd_rows = result.returned_defaults_rows
             stored = _stored(conn, t)
 
+            sizes = []
+            _w = set(p["tok"] for p in params)
+            for _s, _ps, _m in cap:
+                if not isinstance(_ps, list):
+                    _vals = list(_ps.values()) if isinstance(_ps, dict) else list(_ps)
+                    sizes.append(sum(1 for v in _vals if isinstance(v, str) and v in _w))
+            classes += _batch_classes(sizes, n, page, max_params)
             multi_scrambled = stats.get("multi", 0) > 0 and scr != "none"
             uses_sentinel = style in SENTINEL_STYLES and sort and ret != "none" and n > 1
-            nontrivial = ret != "none" and ((sort and nbatches >= 2) or (uses_sentinel and multi_scrambled))
+            nontrivial = ret != "none" and ((sort and nbatches >= 2) or (uses_sentinel and multi_scrambled) or "max-parameters-active" in classes)
             if uses_sentinel:
                 classes.append("sentinel-sort")
             if multi_scrambled:
@@ -277,6 +349,13 @@ def check_live(case, ctx):
                 total += k
                 if not real_many and k > page:
                     raise Violation("C12/batch/exceeds-page-size", f"one INSERT carries {k} parameter sets with insertmanyvalues_page_size={page}", observed=stmt_s[:200])
+                if not real_many and max_params and k > 1 and len(vals) > max_params:
+                    if "sq" in extras and not case.get("pinned"):
+                        continue  # known finding, counted below
+                    sig = "C12/batch/exceeds-max-parameters" + ("/multi-bind-default" if "sq" in extras else "")
+                    raise Violation(sig, f"one INSERT binds {len(vals)} parameters with dialect.insertmanyvalues_max_parameters={max_params}", observed=stmt_s[:200])
+            if max_params and "sq" in extras and not case.get("pinned"):
+                ctx.exclude("max-parameters bound not judged when a SQL-expression default with several binds sits inside VALUES (known finding: binds under-counted)")
             if total != n:
                 raise Violation("C12/batch/bound-count", f"{total} payloads bound over all INSERT statements, {n} parameter sets")
             # client-side default generators ran exactly once per row
@@ -359,6 +438,15 @@ def _live_cases(draw):
         "upsert": draw(st.sampled_from(["none", "none", "none", "nothing", "update_excluded", "update_bound"])),
         "ret_expr": draw(st.booleans()) if ret == "returning" else False,
     }
+    # batch geometry: page sizes incl. the default-like 1000 / very large, a dialect max-parameters limit that is actually active, and
+    # row counts placed relative to the (shrunk) batch size
+    g = draw(st.integers(0, 3))
+    if g >= 1:
+        case["page"] = draw(st.sampled_from([1, 2, 3, 5, 7, 1000, 100000]))
+    if g >= 2:
+        case["max_params"] = draw(st.integers(4, 60))
+    if g >= 1 and draw(st.booleans()) or g == 3:
+        case["n_rel"] = [draw(st.sampled_from(["mult", "plus", "minus", "lt", "plus", "minus"])), draw(st.integers(1, 4))]
     return case
 
 
@@ -573,6 +661,7 @@ class _FakeServer:
         self.stored = []      # dicts in insertion order
         self.batches = []     # per INSERT statement: list of payloads in binding (counter) order
         self.forms = []
+        self.nplaceholders = []
         self.errors = []
 
     def result_for(self, statement, parameters):
@@ -610,6 +699,7 @@ class _FakeServer:
             inserted.append(d)
             self.stored.append(d)
         self.batches.append([d.get("tok") for d in inserted])
+        self.nplaceholders.append(info["nplaceholders"])
         if not info["returning"]:
             return None
         desc, getters = [], []
@@ -640,6 +730,10 @@ def check_rec(case, ctx):
     extras = case.get("extras", [])
     family = backend.split("_")[0]
     eng, db = fakedb.recording_engine(REC_BACKENDS[backend], insertmanyvalues_page_size=page)
+    max_params, n = _geometry(case, style, extras)
+    n = min(n, 60)
+    if max_params:
+        eng.dialect.insertmanyvalues_max_parameters = max_params
     try:
         m = sa.MetaData()
         t, cnt = _rec_table(sa, m, style, extras)
@@ -669,8 +763,8 @@ def check_rec(case, ctx):
         nb = len(srv.batches)
         multi = any(len(b) > 1 for b in srv.batches)
         mode = "row-at-a-time" if nb == n and n > 1 else "batched"
-        classes += [mode] + sorted(set("form=" + f for f in srv.forms))
-        ctx.note(case, sort and n > 1 and (multi or nb >= 2), classes=classes)
+        classes += [mode] + sorted(set("form=" + f for f in srv.forms)) + _batch_classes([len(b) for b in srv.batches], n, page, max_params)
+        ctx.note(case, n > 1 and ((sort and (multi or nb >= 2)) or "max-parameters-active" in classes), classes=classes)
         if srv.errors:
             raise Violation("C12/rec/statement-not-understood", f"{backend}: {srv.errors[0]}")
         flat = [x for b in srv.batches for x in b]
@@ -679,6 +773,8 @@ def check_rec(case, ctx):
                             observed=flat, expected=want)
         if any(len(b) > page for b in srv.batches):
             raise Violation("C12/rec/exceeds-page-size", f"{backend}: a batch carries {max(len(b) for b in srv.batches)} sets, page size {page}")
+        if max_params and any(np_ > max_params and len(b) > 1 for np_, b in zip(srv.nplaceholders, srv.batches)):
+            raise Violation("C12/rec/exceeds-max-parameters", f"{backend}: a batch binds {max(srv.nplaceholders)} parameters, dialect limit {max_params}")
         if style in ("autoinc", "sent_col") and sort and flat != want:
             # server-generated keys are correlated through binding order (VALUES order / sen_counter)
             raise Violation("C12/rec/binding-order", f"{backend}/{style}: batches bind parameter sets out of order", observed=flat, expected=want)
@@ -720,14 +816,20 @@ def check_rec(case, ctx):
 
 @st.composite
 def _rec_cases(draw):
-    page = draw(st.one_of(st.integers(1, 6), st.integers(1, 25)))
-    n = draw(st.one_of(st.integers(2, 40), st.integers(max(2, page - 1), min(40, 3 * page + 2))))
-    return {
+    page = draw(st.one_of(st.integers(1, 6), st.integers(1, 25), st.sampled_from([1, 2, 3, 5, 7, 1000, 100000])))
+    n = draw(st.one_of(st.integers(2, 40), st.integers(min(40, max(2, page - 1)), max(2, min(40, 3 * page + 2)))))
+    case = {
         "backend": draw(st.sampled_from(sorted(REC_BACKENDS))), "style": draw(st.sampled_from(REC_STYLES + ["autoinc", "autoinc"])),
         "n": n, "page": page, "sort": draw(st.sampled_from([True, True, True, False])), "perm": draw(st.sampled_from(["rev", "rev", "rot", "swap"])),
         "extras": sorted(draw(st.sets(st.sampled_from(["val", "sd", "pd"]), max_size=2))), "salt": draw(st.integers(0, 60)),
         "ret": draw(st.sampled_from(["returning", "returning", "return_defaults"])),
     }
+    g = draw(st.integers(0, 2))
+    if g >= 1:
+        case["max_params"] = draw(st.integers(4, 60))
+    if g == 2 or draw(st.integers(0, 3)) == 0:
+        case["n_rel"] = [draw(st.sampled_from(["mult", "plus", "minus", "lt", "plus", "minus"])), draw(st.integers(1, 4))]
+    return case
 
 
 GRID_STYLES = ["autoinc", "uuid_pk", "sent_col", "nopk"]
@@ -747,10 +849,26 @@ def _grid_cases(tier):
                        "paramstyle": "qmark", "scramble": "rev", "extras": [], "salt": (n * 7 + page) % 61, "upsert": "none", "ret_expr": False}
 
 
+def _geom_grid_cases(tier):
+    """rows x page size x dialect max-parameters limit, for batched configurations (client-side sentinel sorted; plain unsorted)"""
+    if tier == "quick":
+        ns, mps, pages = [1, 2, 3, 4, 5, 6, 7, 8, 9, 10, 13, 15, 16, 21], [4, 9, 25], [3, 7, 1000]
+    else:
+        ns, mps, pages = list(range(1, 31)), [4, 5, 6, 9, 14, 25, 60], [2, 3, 5, 7, 1000]
+    for style, sort in [("uuid_pk", True), ("sent_col", True), ("autoinc", False), ("nopk", False), ("composite", True)]:
+        for mp in mps:
+            for page in pages:
+                for n in ns:
+                    yield {"style": style, "n": n, "page": page, "ret": "returning", "sort": sort, "page_via": "engine" if (n + mp) % 2 else "exec_opt",
+                           "paramstyle": ["qmark", "named", "numeric_dollar"][(n + page) % 3], "scramble": "rev", "extras": ["val"] if mp % 2 else [],
+                           "salt": (n * 5 + mp) % 61, "upsert": "none", "ret_expr": False, "max_params": mp}
+
+
 def subs(tier):
     return [
         Enumerated("grid", check_live, cases=_grid_cases),
+        Enumerated("geom_grid", check_live, cases=_geom_grid_cases),
         Generated("live", check_live, strategy=_live_cases(), quick=2000, thorough=30000),
         Generated("orm", check_orm, strategy=_orm_cases(), quick=600, thorough=10000),
-        Generated("rec", check_rec, strategy=_rec_cases(), quick=1500, thorough=20000),
+        Generated("rec", check_rec, strategy=_rec_cases(), quick=1200, thorough=20000),
     ]
